@@ -21,7 +21,9 @@ package main
 
 import (
 	"fmt"
+	"runtime"
 	"strings"
+	"sync"
 	"time"
 
 	"github.com/Ptt-official-app/go-pttbbs/api"
@@ -176,10 +178,13 @@ func (s *c16State) history(args [][]string) []string {
 				time.Sleep(20 * time.Millisecond)
 			}
 			r = []string{"1", "0", "0", "0"}
-		case 2, 3:
+		case 2, 3, 5: // 5 = like 3, but 8 goroutines of this process present their share of the tokens at the same time
 			bad, first, got, rej := int64(0), int64(-1), int64(0), int64(0)
+			var jmu sync.Mutex
 			judge := func(k int) {
 				if ok, u := checkBulk(b, &bulk[k]); !ok {
+					jmu.Lock()
+					defer jmu.Unlock()
 					if u == api.GUEST || u == "?" { // a genuine token refused: not what the property forbids, reported apart
 						rej++
 						return
@@ -198,13 +203,35 @@ func (s *c16State) history(args [][]string) []string {
 					bulk = append(bulk, nb)
 					judge(k)
 				}
-			} else {
+			} else if kind == 3 {
 				if a < 1 {
 					return []string{"9"}
 				}
 				for k := 0; k < len(bulk); k += int(a) {
 					judge(k)
 				}
+			} else {
+				if a < 1 {
+					return []string{"9"}
+				}
+				const G = 8
+				if runtime.GOMAXPROCS(0) < 4 {
+					runtime.GOMAXPROCS(4)
+				}
+				var wg sync.WaitGroup
+				start := make(chan struct{})
+				for g := 0; g < G; g++ {
+					wg.Add(1)
+					go func(g int) {
+						defer wg.Done()
+						<-start
+						for k := g * int(a); k < len(bulk); k += G * int(a) {
+							judge(k)
+						}
+					}(g)
+				}
+				close(start)
+				wg.Wait()
 			}
 			r = []string{oi(bad), oi(first), oi(got), oi(rej)}
 		default:
